@@ -2133,10 +2133,11 @@ func (a *Agent) TaskPrepare(Command int, Info any, Message *map[string]string, C
 
 				}
 
-				/* remove the socks server from the array */
-				a.SocksSvr = append(a.SocksSvr[:i], a.SocksSvr[i+1:]...)
-
 			}
+
+			/* every proxy has been closed: empty the array (removing entries inside the loop above
+			 * shifted the remaining ones under the loop index) */
+			a.SocksSvr = nil
 
 			a.SocksSvrMtx.Unlock()
 
